@@ -1,11 +1,11 @@
-import Mutagen.Proofs.Reconcile
-import Mutagen.Model.Lifecycle
+import Mutagen.Proofs.ReconcileShape
+import Mutagen.Model.SyncCycle
 /-!
 Lemmas for `Properties/C11`: changes below the root leave the root's
 existence and kind alone; the changes `Reconcile` plans at the root path.
 -/
-namespace Mutagen.Proofs.Lifecycle
-open Mutagen.Model Mutagen.Proofs.Reconcile
+namespace Mutagen.Proofs.RootSafety
+open Mutagen.Model Mutagen.Proofs.ReconcileShape
 
 /-- Existence and scalar fields. -/
 def oprops (e : Option Entry) : Option Props := e.map Entry.props
@@ -133,4 +133,4 @@ theorem reconcile_root_cases (mode : Mode) (A α β : Option Entry) (toAlpha : B
       obtain ⟨h5, h6⟩ := handleDisagreement_old mode [] A α β toAlpha c hc
       exact ⟨c, by rw [← hs, h5], handleDisagreement_path mode [] A α β toAlpha c hc, h6⟩
 
-end Mutagen.Proofs.Lifecycle
+end Mutagen.Proofs.RootSafety
